@@ -22,6 +22,8 @@ def gross_sum(t):
 def check(ctx):
     from ..lib import discarded_results
     ctx.sub(discarded_results, 'C11.S2', ('qstrader/portcon/order_sizer/', 'qstrader/broker/fee_model/'), 'each asset is sized with its own allocation, fee estimate and price')
+    from . import c18
+    ctx.sub(c18.state_scan, (CN,))      # what the sizer keeps between calls must not change what it answers
     # ---- S1 scaling
     qn = CN + '._normalise_weights'
     fn = ctx.fn(qn)
@@ -99,6 +101,7 @@ def check(ctx):
         alloc = T.t_mul(EQUITY, w)
         require_fresh_target(ctx, 'C11.S2', s, CN, 'C11.S2|fresh-target')
         kinds = {}
+        table_verdict = None
         for b in s['bodies']:
             bp = b['path']
             if bp.outcome == 'raise':
@@ -149,14 +152,38 @@ def check(ctx):
                 sign = {frozenset({'pos'}): '>', frozenset({'zero', 'pos'}): '>=', frozenset({'neg'}): '<', frozenset({'neg', 'zero'}): '<=', frozenset({'zero'}): '=='}.get(frozenset(signs))
                 if not signs:
                     continue            # no ordered number reaches this path (only an unordered NaN would): nothing to round
+            ratio = q[2][0] if call_is(q, 'INT') and len(q[2]) == 1 else None
+            found = None
+            for cls in ('FLOOR', 'CEIL', 'TRUNC', 'ROUND'):
+                if ratio is not None and T.teq(ratio, T.t_div(('call', ('ext', cls), (after,), ()), pe.result)):
+                    found = cls
+            if found is None and table_verdict is None:
+                # not the shape the rule knows (signs carried separately, the magnitude sized and the sign put back, ...): the body as a decision table over
+                # allocation (either sign, around zero), fee estimate (none, small, larger than the allocation) and price
+                import math
+                from fractions import Fraction as F_
+                from .sizers import table_refute
+                grid = [{'E': F_(1000), 'W': F_(a_) / 1000, 'FEE': F_(f_), 'P': F_(p_)} for a_ in ('-1000.7', '-250.3', '-0.4', '0', '0.4', '250.3', '1000.7')
+                        for f_ in ('0', '0.25', '1.5', '300') for p_ in ('7.3', '100')]
+                table_verdict = table_refute([b_ for b_ in s['bodies'] if b_['fee'] and b_['price'] and b_['fee'][0].result == fe.result and b_['price'][0].result == pe.result],
+                                             {EQUITY: 'E', w: 'W', fe.result: 'FEE', pe.result: 'P'},
+                                             lambda pt: F_(int(F_(math.trunc(pt['E'] * pt['W'] - pt['FEE'])) / pt['P'])), grid)
+                what_ = 'quantity = int(trunc(after-cost dollars) / price): the dollar amount is truncated toward zero first'
+                if table_verdict[0] == 'refuted':
+                    ctx.violation('C11.S2', what_, fe.site, 'READ: at %s the path [%s] sizes %s where int(trunc(allocation - fee) / price) is %s' % (
+                        table_verdict[1], table_verdict[4], float(table_verdict[2]), float(table_verdict[3])), key='C11.S2|formula')
+                elif table_verdict[0] == 'agrees':
+                    ctx.undecided('C11.S2', what_, fe.site, 'the quantity is written another way (%s); it equals the stated formula at all %d points of the sign/rounding table, which is '
+                                  'not a proof of equality' % (fmt(q)[:100], table_verdict[1]))
+                else:
+                    ctx.undecided('C11.S2', what_, fe.site, 'the quantity is written another way (%s) and the table could not be evaluated: %s' % (fmt(q)[:100], table_verdict[1]))
+                kinds.setdefault('table', set()).add(table_verdict[0])
+                continue
+            if found is None and table_verdict is not None:
+                continue
             if not call_is(q, 'INT') or len(q[2]) != 1:
                 ctx.violation('C11.S2', 'the quantity is a whole number (int)', fe.site, fmt(q)[:80], key='C11.S2|int')
                 continue
-            ratio = q[2][0]
-            found = None
-            for cls in ('FLOOR', 'CEIL', 'TRUNC', 'ROUND'):
-                if T.teq(ratio, T.t_div(('call', ('ext', cls), (after,), ()), pe.result)):
-                    found = cls
             if found is None:
                 ctx.violation('C11.S2', 'quantity = int(trunc(after-cost dollars) / price): the dollar amount is truncated toward zero first', fe.site,
                               'quantity is %s' % fmt(q)[:240], key='C11.S2|formula')
@@ -169,7 +196,9 @@ def check(ctx):
             ctx.require(okk, 'C11.S2', 'after-cost dollars are truncated toward zero: floor when >= 0, ceil when < 0 [%s]' % tag, fe.site,
                         '%s applied when after-cost dollars %s 0' % (found, sign if sign else 'of either sign (no sign test on this path)'), key='C11.S2|toward-zero')
         ok = bool(kinds.get('pos')) and kinds.get('pos') <= {'FLOOR', 'TRUNC'} and bool(kinds.get('neg')) and kinds.get('neg') <= {'CEIL', 'TRUNC'}
-        if not kinds:
+        if 'table' in kinds:
+            pass        # judged as a table above
+        elif not kinds:
             ctx.undecided('C11.S2', 'both signs are covered: >= 0 floors, < 0 ceils', lp.site, 'no sizing path was read')
         else:
             ctx.require(ok, 'C11.S2', 'both signs are covered: >= 0 floors, < 0 ceils', lp.site, str(kinds), key='C11.S2|both-signs')
